@@ -75,6 +75,11 @@ pub trait Probe: ChipModel {
     fn sync_value(&self) -> u16;
     /// SX126x: the next transaction finds a chip that runs SetRxDutyCycle in its sleep phase.
     fn arm_duty_sleep(&mut self, _on: bool) {}
+    /// The driver's API was asked for a cold sleep (`sleep(false)`) and reported success. The statement
+    /// counts that as a loss of configuration on every chip family ("after a cold sleep or reset
+    /// everything ... is programmed again"): a chip that keeps its registers while asleep (SX127x) is
+    /// marked here, the SX126x model loses its configuration by itself when it executes the command.
+    fn api_cold_sleep(&mut self) {}
     fn prog(&self) -> u16;
     fn losses(&self) -> u32;
     fn last_loss(&self) -> &'static str;
@@ -186,7 +191,10 @@ impl Probe for Chip127x {
         self.losses
     }
     fn last_loss(&self) -> &'static str {
-        "reset"
+        self.last_loss
+    }
+    fn api_cold_sleep(&mut self) {
+        self.mark_cold_sleep();
     }
     fn clear_transcript(&mut self) {
         self.transcript.clear();
